@@ -90,7 +90,13 @@ func c10SessionProgram(consts []string) string {
 	probe := func(tag, re string) {
 		fmt.Fprintf(&b, `$1 == "%smatch" { r = match($2, %s); printf "%%d\001%%d\001%%d\001%%s\001\003", r, RSTART, RLENGTH, substr($2, RSTART, RLENGTH); next }`+"\n", tag, re)
 		fmt.Fprintf(&b, `$1 == "%ssub" { t1 = $2; n1 = gsub(%s, "&", t1); t2 = $2; n2 = gsub(%s, $4, t2); t3 = $2; n3 = sub(%s, $4, t3); printf "%%d\001%%s\001%%d\001%%s\001%%d\001%%s\001\003", n1, t1, n2, t2, n3, t3; next }`+"\n", tag, re, re, re)
-		fmt.Fprintf(&b, `$1 == "%stilde" { printf "%%d\001\003", ($2 ~ %s); next }`+"\n", tag, re)
+		if tag == "" {
+			fmt.Fprintf(&b, `$1 == "%stilde" { printf "%%d\001\003", ($2 ~ %s); next }`+"\n", tag, re)
+		} else {
+			// a literal also appears as a stand-alone /re/ (matched against $0; the only form compiled to a regex constant —
+			// after ~ and as a function argument a literal is compiled as its text): both spellings must agree
+			fmt.Fprintf(&b, `$1 == "%stilde" { r1 = ($2 ~ %s); $0 = $2; r2 = (%s ? 1 : 0); printf "%%d\001\003", r1 + 2 * (r1 != r2); next }`+"\n", tag, re, re)
+		}
 		fmt.Fprintf(&b, `$1 == "%srsplit" { delete arr; k = split($2, arr, %s); c = 0; for (x in arr) c++; printf "%%d\001%%d\001", k, c; for (i = 1; i <= k; i++) printf "%%s\002", arr[i]; printf "\003"; next }`+"\n", tag, re)
 	}
 	probe("", "$3")
@@ -238,14 +244,17 @@ func (g c10Gen) session(warm int, interleave bool, chars bool, reuse int, nProbe
 	ss := c10Session{Op: "session", Chars: chars, Reuse: reuse}
 	ss.desc = fmt.Sprintf("warm=%d,interleave=%v,reuse=%d", warm, interleave, reuse)
 	var consts []*rx
+	var constSubj [][]byte
 	for i := 0; i < 6; i++ {
 		var t *rx
+		var cs []byte
 		if i < 3 {
-			t, _ = g.prefixAlt()
+			t, cs = g.prefixAlt()
 		} else {
 			t = g.regex(1 + r.Intn(3))
 		}
 		consts = append(consts, t)
+		constSubj = append(constSubj, cs)
 		ss.Consts = append(ss.Consts, vh.HxS(t.String()))
 	}
 	var warmups, probes []c10SRec
@@ -271,8 +280,15 @@ func (g c10Gen) session(warm int, interleave bool, chars bool, reuse int, nProbe
 			ci := r.Intn(len(consts))
 			rec.Const, rec.tree = ci+1, consts[ci]
 			if ci < 3 && r.Intn(2) == 0 {
-				_, s2 := g.prefixAlt()
-				rec.S = vh.Hx(s2)
+				rec.S = vh.Hx(constSubj[ci]) // a subject on which first and longest match differ for this literal
+			}
+		case op != "rsplit" && r.Intn(6) == 0:
+			// the TEXT of a literal of the program, used dynamically (seeded C10-p3: a cache miss that reuses the compiled
+			// literal of the same source text must still give leftmost-longest matches)
+			ci := r.Intn(len(consts))
+			rec.A, rec.tree = vh.HxS(consts[ci].String()), consts[ci]
+			if ci < 3 {
+				rec.S = vh.Hx(constSubj[ci])
 			}
 		case op == "rsplit":
 			rec.A, rec.tree = vh.HxS("("+t.String()+")x?"), nil
